@@ -771,6 +771,23 @@ def c30(scn, run):
     a later incarnation starts from scratch, no stale hold is left behind"""
     g = S.instance_graph(scn)["inst"]
     ticks = _ticks(run["trace"])
+    # the removal erases the instance's history in EVERY flow it was asked for (all flows unless --flow is given)
+    for ti, (n, evs) in enumerate(ticks):
+        rm_ops = [e["op"] for e in evs if e["e"] == "op" and e["op"]["cmd"] == "remove_tasks"
+                  and e["op"]["args"].get("flow") in (None, [], ["all"])]
+        snap = [e for e in evs if e["e"] == "tick_end"]
+        if not rm_ops or not snap or len([e for e in evs if e["e"] == "op"]) != 1:
+            continue
+        rows = snap[-1]["snap"].get("db_states")
+        if not isinstance(rows, list):
+            continue
+        for x in rm_ops[0]["args"]["tasks"]:
+            p_, nm_ = x.split("/")
+            left = [r for r in rows if r[0] == int(p_) and r[1] == nm_ and r[2]]
+            respawned = any(e["e"] == "add" and e["t"]["id"] == [int(p_), nm_] for e in evs)
+            if left and not respawned:
+                return (f"cylc remove {x} (all flows): the task_states table still records it in flows "
+                        f"{[r[2] for r in left]} (status {[r[3] for r in left]}): it cannot run again in those flows")
     removed_ever = set()
     hold_cmds = set()
     for ti, (n, evs) in enumerate(ticks):
